@@ -94,6 +94,70 @@ def oracle(hist, records):
                         ok = ok and ends.get(p["id"], 10**9) < starts[t]
                     if not ok:
                         bad.append(("order", f"build {bi}: task {t} (depends on pattern) ran before producer {p['id']} of the same pattern had finished; reports {order}", None))
+        # (8) `@task(after="<expr>")`: the task starts after every task with products whose name the expression matches —
+        #     statically declared ones, and generated ones if the task was still pending when their generator defined them
+        gen_of = {}
+        for g, b in perfile.items():
+            for n in range(1000, 1080):
+                gen_of[b + n] = g
+        for k in spec["tasks"]:
+            if k.get("parent") is not None:
+                gen_of[k["id"]] = k["parent"]
+        for x in spec["tasks"]:
+            if not pa.after_idents(x) or x["id"] not in pos:
+                continue
+            for k in pa.after_ids(spec, x):
+                if k not in pos:
+                    continue
+                sk = byid.get(k)
+                if sk is not None and not (sk["prods"] or sk["pprods"]):
+                    continue                       # a target without products imposes no order (finding F1 of C01)
+                g = gen_of.get(k)
+                if g is not None and not (g in pos and pos[g] < pos[x["id"]]):
+                    continue                       # defined only after x had started
+                ok = pos[k] < pos[x["id"]]
+                if ok and k in starts and x["id"] in starts:
+                    ok = ends.get(k, 10**9) < starts[x["id"]]
+                if not ok:
+                    bad.append(("after", f"build {bi}: task {x['id']} is declared after={' or '.join(pa.after_idents(x))!r}, which matches task {k}"
+                                         f"{' (defined by generator %d before %d started)' % (g, x['id']) if g is not None else ''}, "
+                                         f"but it started before {k} had finished; reports {order}", None))
+        # (9) failures: dependants of a failed task do not run; nothing starts after the failure limit; exit code
+        edges = set()
+        prod_of = {}
+        statics = [u for u in spec["tasks"] if u.get("parent") is None]
+        for u in statics:
+            for pnode in u["prods"]:
+                prod_of[pnode] = u["id"]
+        for u in statics:
+            for d in u["deps"] + ([u["cnt"]] if u.get("cnt") is not None else []):
+                if d in prod_of:
+                    edges.add((prod_of[d], u["id"]))
+            for q in statics:
+                if q["id"] != u["id"] and set(q["pprods"]) & set(u["pdeps"]):
+                    edges.add((q["id"], u["id"]))
+        failed = [t for t, oc in reps if oc == "FAIL"]
+        for f in set(failed):
+            desc, stack = set(), [f]
+            while stack:
+                a = stack.pop()
+                for (u, v) in edges:
+                    if u == a and v not in desc:
+                        desc.add(v)
+                        stack.append(v)
+            for d in desc:
+                if stopped or d not in pos or pos[d] < pos[f] or d not in static_ids or f not in static_ids:
+                    continue
+                if d in starts or outcome[d] != "SKIP_PREVIOUS_FAILED":
+                    bad.append(("failure", f"build {bi}: task {d} depends on task {f}, which FAILED earlier in this build, but it was not skipped "
+                                           f"(outcome {outcome[d]}, body {'ran' if d in starts else 'did not run'}); reports {reps}", None))
+        mf = (hist.get("kw") or {}).get("max_failures")
+        if mf is not None and len(failed) >= mf:
+            idx = [i for i, (t, oc) in enumerate(reps) if oc == "FAIL"][int(mf) - 1]
+            if idx != len(reps) - 1:
+                bad.append(("failure", f"build {bi}: max_failures={mf} but {len(reps) - 1 - idx} task(s) were processed after failure number {mf}; reports {reps}", None))
+        if obs["exit"] != (1 if failed else 0):
+            bad.append(("failure", f"build {bi}: exit code {obs['exit']} with failed tasks {failed}", None))
         # (5) generators and what they define
         expected_kids = {}
         for g, spec_g in byid.items():
@@ -213,12 +277,55 @@ def corpus():
     pers = {"tag": "corpus-persist", "nomodel": True,
             "spec": {"pats": pats, "tasks": [_t(1, pdeps=[f0], prods=[200], persist=True)], "perfile": {}, "inputs": {}, "version": 0},
             "steps": [["write", 1000, 5], ["write", 1001, 6], ["build"], ["build"]]}
-    return [f11, f11b, f13, mix, pers]
+    # outside the model (generators with products; failure limit): a generator that raises after writing its product, and dependants
+    gf_spec = {"pats": pats, "tasks": [_t(1, cnt=100, pprods=[f0]), _t(2, pdeps=[f0], gen=True, fails="late", prods=[201]),
+                                       _t(3, deps=[201], prods=[202]), _t(4, deps=[202], prods=[203]), _t(5, deps=[102], prods=[204])],
+               "perfile": {"2": 20000}, "inputs": {"100": 2, "102": 4}, "version": 0}
+    gf1 = {"tag": "corpus-genfail", "nomodel": True, "spec": gf_spec, "steps": [["build"], ["build"]]}
+    gf2 = {"tag": "corpus-genfail-limit", "nomodel": True, "kw": {"max_failures": 1}, "spec": gf_spec, "steps": [["build"], ["build"]]}
+    return [f11, f11b, f13, mix, pers, gf1, gf1, gf2, gf2]
+
+
+def gen_genfail(rng):
+    """Oracle-only stream (generators with products are outside the model): a generator that raises — before or after
+    writing its product — with a chain of dependants, independent tasks, optionally another failing task and a failure limit."""
+    f0 = pa.pat_id(0, "f")
+    pats = {str(f0): {"dir": 0, "kind": "f"}}
+    tasks, inputs = [], {"100": rng.randint(1, 4)}
+    with_prod = rng.random() < 0.7
+    if with_prod:
+        tasks.append(_t(1, cnt=100, pprods=[f0]))
+    node = [200]
+
+    def nn():
+        node[0] += 1
+        return node[0]
+    gp = nn()
+    tasks.append(_t(2, pdeps=[f0] if with_prod or rng.random() < 0.5 else [], gen=True, fails=rng.choice([True, "late", "late"]), prods=[gp]))
+    prev, tid = gp, 3
+    for _ in range(rng.randint(1, 3)):
+        q = nn()
+        tasks.append(_t(tid, deps=[prev], prods=[q]))
+        prev, tid = q, tid + 1
+    for _ in range(rng.randint(0, 2)):
+        i = nn()
+        inputs[str(i)] = rng.randint(1, 9)
+        tasks.append(_t(tid, deps=[i], prods=[nn()], fails=rng.random() < 0.3))
+        tid += 1
+    rng.shuffle(tasks)
+    h = {"tag": "genfail", "nomodel": True, "spec": {"pats": pats, "tasks": tasks, "perfile": {"2": 20000}, "inputs": inputs, "version": 0},
+         "steps": [["build"], ["build"]] if with_prod else [["write", 1000, 3], ["build"], ["build"]]}
+    mf = rng.choice([None, None, 1, 1, 2])
+    if mf is not None:
+        h["kw"] = {"max_failures": mf}
+    return h
 
 
 def histories(ctx):
     rng = ctx.rng
     hs = corpus()
+    for _ in range(ctx.scale(6, 60)):
+        hs.append(gen_genfail(rng))
     for _ in range(ctx.scale(50, 600)):
         spec = pa.gen_spec(rng)
         hs.append({"tag": "rand", "spec": spec, "steps": pa.gen_steps(rng, spec)})
